@@ -130,6 +130,25 @@ def random_runs(check, n=None, conform=False):
     return [(p, t, storm.BIG['NRoots'], world) for p, t in zip(progs, traces)]
 
 
+def waiter_runs(check, kind, n=None):
+    """storm.waiters_program: many waiters on one lock / queue, some leaving from the middle of the waiting list"""
+    import random
+    import storm
+    if n is None:
+        n = 2000 if check.tier == 'quick' else 30000
+    progs = [storm.waiters_program(random.Random('w%s/%d/%d' % (kind, check.seed, i)), kind)['roots'] for i in range(n)]
+    world = world_args(storm.BIG)
+    WORLD.clear()
+    WORLD.update(world)
+    try:
+        traces = [r[0] for r in run_many(progs, 1)]
+    finally:
+        WORLD.clear()
+    check.extra['waiter_storm_programs'] = n
+    check.programs += n
+    return [(p, t, 1, world) for p, t in zip(progs, traces)]
+
+
 def run_many(progs, nroots, procs=16, starts=None):
     """execute programs on the real code in worker processes (each simulation is independent)"""
     starts = starts or [0] * len(progs)
